@@ -145,3 +145,28 @@ def x05(ctx):
     rnd = ctx.path("cases-b.ndjson")
     vlib.harness(["gen", "infer", ctx.seed, 1500 if q else 20000, rnd])
     vlib.exec_and_judge(ctx, "infer", rnd, "Trace_Infer", "B", sample_keys=keys, per_case_timeout_ms=20000)
+
+
+@ext("X06", "lines", "Trace_Lines", "line reader (LossyUtf8Reader) and jsonl item layer")
+def x06(ctx):
+    q = ctx.quick()
+    ml, mj = (5, 3) if q else (6, 4)
+    ctx.rule = ("MC: the reader as a step machine (one next() per step) for every file up to 6/7 bytes over {LF, CR, a, space}: the lines read "
+                "so far re-join (with LF or CR LF, the last one possibly without) to the consumed prefix, the count is #LF + 1 for an "
+                "unterminated last line, no line contains LF; A: every file up to %d bytes over {LF, CR, a, 195, 164, 255} written to disk and "
+                "read by the real LossyUtf8Reader (lines, count of a second pass; valid lines exactly, invalid bytes become U+FFFD), and every "
+                "jsonl file of up to %d lines over 8 line kinds x LF / CRLF x terminated last line through the real "
+                "train_data_generator_from_jsonl (one Ok / Err item per line in order, reported length = number of lines); B: random. "
+                "non-trivial = at least one terminator / two lines" % (ml, mj))
+    ctx.assumptions = ["String::from_utf8_lossy is described only by what it keeps (the valid part) and by the replacement character"]
+    vlib.mc(ctx, "MC_Lines", "CONSTANTS MaxLen = %d\nSPECIFICATION Spec\nINVARIANTS PrefixInv DoneInv NoCRLFInside\nPROPERTY Terminates\n"
+            "CHECK_DEADLOCK FALSE\n" % (6 if q else 7), name="MC_Lines")
+    gcfg = "CONSTANTS MaxLen = %d MaxLines = %d\nINIT Init\nNEXT Next\nCHECK_DEADLOCK FALSE\n" % (ml, mj)
+    keys = ["kind", "bytes", "lines", "kinds", "items", "reported"]
+    for fam in ("bytes", "jsonl"):
+        cases, n = vlib.tlc_generate(ctx, "Gen_Lines", gcfg, "cases-a-%s.ndjson" % fam, env={"FAMILY": fam})
+        vlib.exec_and_judge(ctx, "lines", cases, "Trace_Lines", "A-" + fam, sample_keys=keys)
+    ctx.exhaustive = True
+    rnd = ctx.path("cases-b.ndjson")
+    vlib.harness(["gen", "lines", ctx.seed, 3000 if q else 40000, rnd])
+    vlib.exec_and_judge(ctx, "lines", rnd, "Trace_Lines", "B", sample_keys=keys)
